@@ -6,6 +6,7 @@ import (
 	"encoding/json"
 	"fmt"
 	"hash/fnv"
+	"io"
 	"net"
 	"net/http"
 	"strings"
@@ -42,10 +43,11 @@ const (
 	kHijack
 	kIgnoreAtParamChild
 	kIgnoreCloneWith
+	kBrokenWriter
 	nKinds
 )
 
-var kindNames = [...]string{"direct(2 params)", "ignored-slash", "redirect", "404", "405", "OPTIONS", "Lookup+Close", "Lookup+Clone", "handler-CloneWith", "handler-Clone-stash", "hostname-direct", "infix-catch-all", "iterators-left-early", "handler-Lookup-inside", "ignored-slash-Clone-stash", "static-hostname-ignored-slash+Lookup-inside", "two-infix-catch-alls-ignored-slash", "hostname-infix-catch-all-ignored-slash", "405-after-backtracking-in-the-hostname-tree", "no-query-string+handler-adds-a-query-value+Clone-stash", "handler-hijacks-the-connection-before-writing", "ignored-slash-where-the-walk-stops-at-a-parameter-child", "ignored-slash+handler-CloneWith"}
+var kindNames = [...]string{"direct(2 params)", "ignored-slash", "redirect", "404", "405", "OPTIONS", "Lookup+Close", "Lookup+Clone", "handler-CloneWith", "handler-Clone-stash", "hostname-direct", "infix-catch-all", "iterators-left-early", "handler-Lookup-inside", "ignored-slash-Clone-stash", "static-hostname-ignored-slash+Lookup-inside", "two-infix-catch-alls-ignored-slash", "hostname-infix-catch-all-ignored-slash", "405-after-backtracking-in-the-hostname-tree", "no-query-string+handler-adds-a-query-value+Clone-stash", "handler-hijacks-the-connection-before-writing", "ignored-slash-where-the-walk-stops-at-a-parameter-child", "ignored-slash+handler-CloneWith", "client-gone:every-write-of-every-helper-fails"}
 
 // world is one router plus the bookkeeping of one execution.
 type world struct {
@@ -165,12 +167,26 @@ func (w *world) observe(c fox.Context, wantPattern string, wantScope fox.Handler
 	}
 }
 
-// respond writes a token-specific response.
+// respond writes a token-specific response (the body is the token itself), through one of the ways a handler
+// can send a body; which one rotates with the request's position and kind.
 func (w *world) respond(c fox.Context) {
-	n := len(w.cur.tok)
-	c.SetHeader("X-Resp", w.cur.tok)
-	c.Writer().WriteHeader(200 + n)
-	c.Writer().Write([]byte(strings.Repeat("x", n)))
+	tok := w.cur.tok
+	n := len(tok)
+	c.SetHeader("X-Resp", tok)
+	switch (w.serial + w.cur.kind) % 5 {
+	case 0:
+		c.Writer().WriteHeader(200 + n)
+		c.Writer().Write([]byte(tok))
+	case 1:
+		c.String(200+n, "%s", tok)
+	case 2:
+		c.Blob(200+n, "text/plain", []byte(tok))
+	case 3:
+		c.Stream(200+n, "text/plain", strings.NewReader(tok))
+	case 4:
+		c.Writer().WriteHeader(200 + n)
+		c.Writer().WriteString(tok)
+	}
 }
 
 func (w *world) stashClone(c fox.Context, cl fox.Context) {
@@ -293,6 +309,16 @@ func newWorld(withHost bool) *world {
 		if conn != nil {
 			conn.Close()
 		}
+	}))
+	// the client is gone: every write of every helper fails; nothing of this response may reach a later one
+	must(f.Handle("GET", "/bw/{a}", func(c fox.Context) {
+		w.observe(c, "/bw/{a}", fox.RouteHandler, []string{"a"}, true)
+		leak := "LEAK-" + w.cur.tok
+		c.String(200, "%s", leak)
+		c.Blob(200, "text/plain", []byte(leak))
+		c.Stream(200, "text/plain", strings.NewReader(leak))
+		c.Writer().Write([]byte(leak))
+		c.Writer().WriteString(leak)
 	}))
 	// a request without a query string whose handler adds a value to the (per-request) query values and keeps a Clone
 	must(f.Handle("GET", "/nq/{a}", func(c fox.Context) {
@@ -451,6 +477,11 @@ func (w *world) issue(kind int) {
 		if rw.Code != 0 || len(rw.Body) != 0 {
 			w.bad("a request whose handler only hijacked the connection got status=%d body=%d through the writer", rw.Code, len(rw.Body))
 		}
+	case kBrokenWriter:
+		w.f.ServeHTTP(brokenRW{rw}, w.req("GET", "", "/bw/"+tok+"a"))
+		if len(rw.Body) != 0 {
+			w.bad("a writer that fails every write holds %d body bytes", len(rw.Body))
+		}
 	case kHandlerLookup:
 		w.f.ServeHTTP(rw, w.req("GET", "", "/hl/"+tok+"a"))
 	case kIgnoreCloneStash:
@@ -516,10 +547,10 @@ func (w *world) issue(kind int) {
 	if wantObserved && !w.cur.observed {
 		w.bad("no handler observed the request (status %d)", rw.Code)
 	}
-	if kind != kLookupClose && kind != kLookupClone && kind != kRedirect && kind != kIterBreak && kind != kHijack {
+	if kind != kLookupClose && kind != kLookupClone && kind != kRedirect && kind != kIterBreak && kind != kHijack && kind != kBrokenWriter {
 		n := len(tok)
-		if rw.Code != 200+n || len(rw.Body) != n || rw.H.Get("X-Resp") != tok {
-			w.bad("response status=%d body=%d X-Resp=%q, want %d/%d/%q", rw.Code, len(rw.Body), rw.H.Get("X-Resp"), 200+n, n, tok)
+		if rw.Code != 200+n || string(rw.Body) != tok || rw.H.Get("X-Resp") != tok {
+			w.bad("response status=%d body=%q X-Resp=%q, want %d/%q/%q", rw.Code, rw.Body, rw.H.Get("X-Resp"), 200+n, tok, tok)
 		}
 	}
 	w.recheck("after request " + tok)
@@ -765,6 +796,11 @@ func (w *world) cloneWithOther(c fox.Context) {
 }
 
 // hijackRW is an underlying writer whose connection can be taken over.
+// brokenRW fails every write (the peer closed the connection).
+type brokenRW struct{ *fx.RW }
+
+func (b brokenRW) Write([]byte) (int, error) { return 0, io.ErrClosedPipe }
+
 type hijackRW struct{ *fx.RW }
 
 func (h hijackRW) Hijack() (net.Conn, *bufio.ReadWriter, error) {
@@ -777,7 +813,7 @@ func init() {
 	mc.Register(&mc.Check{
 		ID:    "C12",
 		Level: "model_checking",
-		Rule: "every sequence up to a length of requests from a 23-kind alphabet (direct, ignored slash, redirect, 404, 405, OPTIONS, manual Lookup(+Clone), CloneWith, Clone, hostname, infix catch-all, every iterator consumed fully and left at its first element, a handler doing a Lookup for another request, a slash-adjusted match whose handler keeps a Clone, a static-hostname slash-adjusted match whose handler looks up another slash-adjusted request), with an optional tree replacement before each request, x EVERY answer of the context pool at every Pool.Get (any of the pooled contexts or a fresh one: data choice points of the controlled scheduler); every request carries a unique token in every observable field and every Context getter is checked inside every handler; stashed clones are re-read after every later request; " +
+		Rule: "every sequence up to a length of requests from a 24-kind alphabet (direct, ignored slash, redirect, 404, 405, OPTIONS, manual Lookup(+Clone), CloneWith, Clone, hostname, infix catch-all, every iterator consumed fully and left at its first element, a handler doing a Lookup for another request, a slash-adjusted match whose handler keeps a Clone, a static-hostname slash-adjusted match whose handler looks up another slash-adjusted request), with an optional tree replacement before each request, x EVERY answer of the context pool at every Pool.Get (any of the pooled contexts or a fresh one: data choice points of the controlled scheduler); every request carries a unique token in every observable field and every Context getter is checked inside every handler; stashed clones are re-read after every later request; " +
 			"plus two-thread schedules; distinct_nontrivial = distinct (sequence, outcome) classes",
 		Assumptions: []string{
 			"sync.Pool may return any previously Put object or a fresh one: the shim makes that choice explicit and the explorer enumerates it",
